@@ -451,8 +451,11 @@ class _Parser(object):
 
     def _handle_comparison_operator(self, operator, values):
         assert len(values) == 2, 'Comparison requires two expressions'
-        a = self.parse(values[0])
-        b = self.parse(values[1])
+        a = self._parse_or_nothing(values[0])
+        b = self._parse_or_nothing(values[1])
+        if a is NOTHING or b is NOTHING:
+            # A missing field sorts before any value, null included.
+            a, b = a is not NOTHING, b is not NOTHING
         if operator == '$eq':
             return a == b
         if operator == '$ne':
